@@ -45,10 +45,16 @@ OTHER = {
 OTHER["C19"] = dict(engine="sorting-conformance", cat="model_checking", tech="TLA+ specification of the documented sort orders (Sorting.tla) and of the node collection (NodeColl.tla); recorded permutation experiments on the real sorters validated by TLC (SortingTrace.tla), TLC-generated node-collection behaviours replayed lock-step",
    text="Sorting.tla gives each policy's documented strict weak order (TLC checks it IS a strict weak order over a finite key domain); real queues/applications/asks with keys from a small domain are presented to the real sorters in EVERY permutation and the records are validated by TLC: output is a permutation, no pair inverted, relative order of distinguished pairs independent of the input permutation; NodeColl.tla behaviours (add/remove/allocate/release/foreign/reserve/policy change, exhaustive to depth 5/6 plus simulation) are replayed on a real NodeCollection comparing both iterators after every step",
    note="trusted: TLC, the record format of ykh sortrec, explicit (never wall-clock) time keys")
+OTHER["C15"] = dict(engine="lockstep-confvalid", cat="model_checking", tech="TLA+ specification of the documented configuration rules (ConfigValid.tla); TLC enumerates families of abstract configurations with the specification's verdict, the harness renders them to YAML and compares with the real validator, loader, reload and first placement",
+   text="SOUNDNESS of validation: spec/ConfigValid.tla states 29 documented rules (queue structure and names, max/guaranteed hierarchy, max-applications, user/group/wildcard limits vs queue maximum and ancestors, placement rule paths) as SpecValid(c); TLC enumerates ten families of abstract configurations as initial states; every configuration the real validator ACCEPTS must satisfy SpecValid, must load into a new scheduler, reload into a running one and place a first application per leaf / rule shape without error or panic, and validation must give one verdict on repeated runs; rejected configurations are only counted (completeness is not claimed)",
+   note="trusted: TLC, the YAML renderer, the abstract record <-> YAML correspondence; ambiguous sub-cases listed in the header of ConfigValid.tla are not judged")
+OTHER["C17"] = dict(engine="lockstep-placement", cat="model_checking", tech="TLA+ specification of the placement rule chain and ACL semantics (Placement.tla) as a deterministic function; TLC enumerates rule chains x ACL layouts x applications with the expected outcome, lock-step replay through the real SI path",
+   text="spec/Placement.tla defines Place(rules, tree, app) from the documented semantics (provided/user/tag/fixed rules, parent rules, filters, create flags, ACL inheritance, name validity, draining and leaf/parent rules, child templates, the implicit recovery rule); TLC checks the specification against the property (invariant Sane) and enumerates cases (exhaustive single-rule family x 12 ACL layouts x 612 applications, plus seeded chains of up to 3 rules with parents); every case is submitted to a real ClusterContext and the answer, the queue, created queues and their template limits are compared",
+   note="trusted: TLC, the harness comparison, the rendering of layouts (the draining leaf is produced by a real reload); sub-cases left out on purpose are listed in the header of Placement.tla")
 NA = {
  "C05": "check under construction in this revision (usage invariants exist in YKTrace.tla; the limit-enforcement step check and the UpdateConfig lock-step replay are not registered yet)",
  "C14": "check under construction in this revision (concurrent mode not registered yet)",
- "C15": "check under construction in this revision", "C17": "check under construction in this revision",
+
 
 }
 for p, o in OTHER.items():
@@ -66,6 +72,8 @@ m = {
    {"name": "lockstep-resarith", "path": "/verif/vlib/resarith.py", "serves_properties": ["C18"], "kind_free_text": "TLC/Apalache on spec/ResOps.tla, Int64Sat.tla, Quantity.tla + ykh resarith lock-step replay"},
    {"name": "lockstep-events", "path": "/verif/vlib/events.py", "serves_properties": ["C20"], "kind_free_text": "TLC on spec/EventRing.tla, EventStore.tla, EventStream.tla + ykh events replay (ring/store lock-step, stream interleavings with gates)"},
    {"name": "sorting-conformance", "path": "/verif/vlib/sorting.py", "serves_properties": ["C19"], "kind_free_text": "ykh sortrec records permutation experiments on the real sorters, TLC validates them against spec/Sorting.tla; ykh nodecoll replays spec/NodeColl.tla behaviours"},
+   {"name": "lockstep-confvalid", "path": "/verif/vlib/confvalid.py", "serves_properties": ["C15"], "kind_free_text": "TLC on spec/ConfigValid.tla (MC_ConfigValid) + ykh confvalid"},
+   {"name": "lockstep-placement", "path": "/verif/vlib/placement.py", "serves_properties": ["C17"], "kind_free_text": "TLC on spec/Placement.tla (MC_Placement) + ykh placement"},
    {"name": "trace-validation", "path": "/verif/vlib/tracecheck.py", "serves_properties": sorted(TRACE), "kind_free_text": "Go harness (harness/) drives the real ClusterContext synchronously and logs NDJSON; TLC validates every step against spec/YKTrace.tla"},
  ],
  "checks": checks,
